@@ -14,10 +14,14 @@ Definition op_conv (e : env) (o : op) : conv :=
   | _ => id_conv
   end.
 
+Definition merged_cols : freeset :=
+  fun t c => String.eqb t "value" && (String.eqb c "type" || String.eqb c "format" || String.eqb c "value").
+
 (** Columns an operation recomputes from other data (nothing is claimed about them). *)
 Definition op_free (o : op) : freeset :=
   match o with
   | BackfillExecutionId => fun t c => String.eqb t "job" && String.eqb c "execution_id"
+  | BackfillTaskValues _ MergeRow _ => merged_cols     (* merge() may overwrite an existing value row *)
   | _ => no_free
   end.
 
@@ -53,6 +57,17 @@ Proof.
     destruct (String.eqb c "end_time") eqn:Ee.
     + apply String.eqb_eq in Ee. subst c. rewrite G1. eapply rget_rset_same; eauto.
     + apply String.eqb_neq in Ee. destruct (rget r1 "end_time"); [rewrite rget_rset_other; auto|auto].
+Qed.
+
+(* ------------------------------------------------------------------ merge *)
+Lemma overwrite_get : forall new r c v,
+  rget r c = Some v -> merged_cols "value" c = false -> rget (overwrite new r) c = Some v.
+Proof.
+  intros new r c v Hv Hf. unfold overwrite. destruct (find _ new); [|exact Hv].
+  unfold merged_cols in Hf. simpl in Hf.
+  apply orb_false_iff in Hf. destruct Hf as [Hf H3]. apply orb_false_iff in Hf. destruct Hf as [H1 H2].
+  apply String.eqb_neq in H1, H2, H3.
+  rewrite !rget_rset_other by assumption. exact Hv.
 Qed.
 
 (* ------------------------------------------------------------------ one operation *)
@@ -98,9 +113,14 @@ Proof.
   - (* BackfillTaskValues *)
     destruct (lookup "task" (d_tables d)) as [TT|]; [|discriminate].
     eapply on_table_preserved; [exact H| |intros; reflexivity].
-    intros T T' _ F; cbv beta in F. destruct (companion_rows _ _) as [rs|]; [|discriminate]. injection F as <-.
-    exists (t_rows T), rs. split; [reflexivity|].
-    apply Forall2_refl_in. intros; apply row_ext_refl.
+    intros T T' _ F; cbv beta in F. destruct (companion_rows _ _) as [rs|]; [|discriminate].
+    destruct (write_rows wm (t_rows T) rs) as [rows|] eqn:W; [|discriminate]. injection F as <-. simpl.
+    destruct wm; simpl in W.
+    + destruct (existsb _ rs); [discriminate|]. injection W as <-.
+      exists (t_rows T), rs. split; [reflexivity|].
+      apply Forall2_refl_in. intros; apply row_ext_refl.
+    + injection W as <-. eexists (map (overwrite rs) (t_rows T)), _. split; [reflexivity|].
+      apply Forall2_map_r. intros r _ c v Hv Hf. unfold id_conv. apply overwrite_get; assumption.
   - (* StubExecutions *)
     destruct (lookup "job" (d_tables d)) as [J|]; [|discriminate].
     eapply on_table_preserved; [exact H| |intros; reflexivity].
@@ -185,11 +205,15 @@ Proof.
   destruct o; simpl; rewrite IH; reflexivity.
 Qed.
 
+Definition is_merge (o : op) : bool := match o with BackfillTaskValues _ MergeRow _ => true | _ => false end.
+
 Lemma free_of_backfill : forall ops t c,
+  existsb is_merge ops = false ->
   free_of ops t c = existsb is_backfill ops && (String.eqb t "job" && String.eqb c "execution_id").
 Proof.
-  induction ops as [|o r IH]; intros; [reflexivity|].
-  destruct o; simpl; rewrite IH; unfold no_free; simpl; try reflexivity.
+  induction ops as [|o r IH]; intros t c Hm; [reflexivity|].
+  simpl in Hm. apply orb_false_iff in Hm. destruct Hm as [Ho Hm].
+  destruct o; try (destruct wm; [|discriminate Ho]); simpl; rewrite (IH t c Hm); unfold no_free; simpl; try reflexivity.
   destruct (String.eqb t "job" && String.eqb c "execution_id"); simpl;
     [reflexivity|rewrite andb_false_r; reflexivity].
 Qed.
